@@ -1,9 +1,12 @@
 package props
 
 import (
+	"context"
+	"errors"
 	"fmt"
 	"github.com/IBM/fluent-forward-go/fluent/client"
 	"math/rand"
+	"net"
 	"strings"
 	"sync/atomic"
 	"time"
@@ -119,6 +122,7 @@ func C14(c *core.Ctx) {
 	if !fine {
 		raceStress(c, c.N(150, 3000))
 		c14SlowDial(c)
+		c14CapableConns(c)
 	}
 }
 
@@ -197,5 +201,89 @@ func c14SlowDial(c *core.Ctx) {
 		}
 		c.Eval()
 		c.Hist("slow factory: " + op)
+	}
+}
+
+// capableConn: a connection that offers the optional methods callers commonly probe for by type assertion (what a
+// *tls.Conn or *net.TCPConn has beyond net.Conn); each may fail.  The lifecycle clauses do not depend on what a
+// connection can do besides net.Conn.
+type capableConn struct {
+	*fakes.Conn
+	fail bool
+}
+
+func (o *capableConn) opt() error {
+	if o.fail {
+		return errors.New("fake: optional operation failed")
+	}
+	return nil
+}
+func (o *capableConn) HandshakeContext(ctx context.Context) error { return o.opt() }
+func (o *capableConn) Handshake() error                           { return o.opt() }
+func (o *capableConn) CloseWrite() error                          { return o.opt() }
+func (o *capableConn) CloseRead() error                           { return o.opt() }
+func (o *capableConn) SetKeepAlive(bool) error                    { return o.opt() }
+func (o *capableConn) SetNoDelay(bool) error                      { return o.opt() }
+func (o *capableConn) SetLinger(int) error                        { return o.opt() }
+
+type capableFactory struct {
+	inner *fakes.Factory
+	fail  func(k int) bool
+}
+
+func (f *capableFactory) New() (net.Conn, error) {
+	k := f.inner.NumCalls()
+	cn, err := f.inner.New()
+	if err != nil {
+		return nil, err
+	}
+	return &capableConn{Conn: cn.(*fakes.Conn), fail: f.fail(k)}, nil
+}
+
+func c14CapableConns(c *core.Ctx) {
+	for _, hist := range []string{"C C D", "C S D", "C C R D", "C R R D C D", "C D D"} {
+		for _, failing := range []string{"none", "all", "first", "odd"} {
+			inner := &fakes.Factory{FailOn: map[int]bool{}}
+			f := &capableFactory{inner: inner, fail: func(k int) bool {
+				return failing == "all" || failing == "first" && k == 0 || failing == "odd" && k%2 == 1
+			}}
+			cl := client.New(client.ConnectionOptions{Factory: f})
+			replay := map[string]interface{}{"calls": hist, "optional_methods_fail": failing}
+			active := false
+			for _, step := range strings.Fields(hist) {
+				dials := inner.NumCalls()
+				switch step {
+				case "C":
+					err := cl.Connect()
+					if active && (err == nil || inner.NumCalls() != dials) {
+						c.Violation("judge-go", "c14-connect-active", "Connect on an active session did not fail without dialing (connections with optional methods)", replay)
+					}
+					active = active || err == nil
+				case "D":
+					_ = cl.Disconnect()
+					active = false
+				case "R":
+					active = cl.Reconnect() == nil
+				case "S":
+					_ = cl.SendMessage("t", map[string]interface{}{"k": "v"})
+				}
+				open := 0
+				for _, cn := range inner.All() {
+					if cn.NumCloses() == 0 {
+						open++
+					}
+				}
+				if open > 1 || (open == 1 && !active) {
+					c.Violation("judge-go", "c14-two-open", fmt.Sprintf("after %q of [%s]: %d connections obtained from the factory are open, the last lifecycle call left a session: %v (connections offering optional methods, failing: %s)", step, hist, open, active, failing), replay)
+				}
+			}
+			for i, cn := range inner.All() {
+				if n := cn.NumCloses(); n != 1 {
+					c.Violation("judge-go", "c14-close-count", fmt.Sprintf("connection %d was closed %d times after [%s] (connections offering optional methods, failing: %s)", i, n, hist, failing), replay)
+				}
+			}
+			c.Eval()
+			c.Hist("connections offering optional methods: " + hist)
+		}
 	}
 }
